@@ -381,6 +381,7 @@ type vC01Seq struct {
 	nWrap      int
 	nMatchRead int
 	nMatchSet  int
+	badOffset  bool // offset > len(buf) was observed: unreachable by the modelled call patterns
 	maxBuf     int
 }
 
@@ -392,7 +393,13 @@ func (s *vC01Seq) snap() string {
 	return fmt.Sprintf("(%d,%d,%d,%d,%s,%d)", len(cx.buf), cap(cx.buf), cx.offset, cx.frozenOffset, cBool(cx.matching), s.sock.pos)
 }
 
-func (s *vC01Seq) step(op string) { s.steps = append(s.steps, "("+op+", "+s.snap()+")") }
+func (s *vC01Seq) step(op string) {
+	s.steps = append(s.steps, "("+op+", "+s.snap()+")")
+	if s.cx.offset > len(s.cx.buf) && !s.badOffset {
+		s.badOffset = true
+		s.xfOK = false
+	}
+}
 
 func (s *vC01Seq) opRead(n int) ([]byte, error) {
 	p := make([]byte, n)
@@ -458,18 +465,46 @@ func vC01Run(out *vOut, rng *vRng, idx int, style int) {
 			s.opMatchSet(out, rng, idx)
 			continue
 		}
+		// freeze/unfreeze are driven only in the patterns MatcherSet.Match and MatchNot.Match produce:
+		//   outside (depth 0): anything a handler or the router does, or freeze (a matcher starts)
+		//   matching (depth > 0, matching on): the matcher reads / peeks, a `not` delegates (nested
+		//     freeze at the frozen offset), or the matcher returns (unfreeze)
+		//   between (depth > 0, matching off: a nested set has just unfrozen): the `not` starts its
+		//     next inner matcher (freeze) or returns to the outer set (unfreeze) -- nothing else
+		// (model/Conn.v run_set; the reachable states satisfy offset <= len(buf), lemma run_set_wf)
 		r := rng.Intn(100)
-		if style == 1 && depth == 0 && r >= 20 && r < 45 {
-			r = 20 // bias towards prefetching first
+		switch {
+		case depth == 0:
+			if r >= 60 && r < 75 {
+				r = 20 // no unfreeze without a freeze
+			}
+			if style == 1 && r >= 20 && r < 45 {
+				r = 20 // bias towards prefetching first
+			}
+		case s.cx.matching:
+			switch x := rng.Intn(100); {
+			case x < 45:
+				r = 0 // Read
+			case x < 60:
+				r = 75 // MatchingBytes
+			case x < 75 && depth < 3 && s.cx.offset == s.cx.frozenOffset:
+				r = 45 // nested freeze
+			case x < 75:
+				r = 0
+			default:
+				r = 60 // unfreeze
+			}
+		default:
+			if depth < 3 && rng.Intn(3) == 0 {
+				r = 45
+			} else {
+				r = 60
+			}
 		}
 		switch {
 		case r < 20: // Read
 			n := readSizes[rng.Intn(len(readSizes))]
 			matching := s.cx.matching
-			if depth > 0 && !matching {
-				// a read between an inner unfreeze and the outer one: no shipped matcher does that
-				s.xfOK = false
-			}
 			d, err := s.opRead(n)
 			if matching {
 				s.nMatchRead++
@@ -486,42 +521,14 @@ func vC01Run(out *vOut, rng *vRng, idx int, style int) {
 			err := s.cx.prefetch()
 			s.step(fmt.Sprintf("KPrefetch %d %d", vErrEnum(err), cap(s.cx.buf)))
 		case r < 60: // freeze (possibly nested, as MatchNot does)
-			if depth < 2 || rng.Intn(4) == 0 {
-				if depth >= 1 && s.cx.offset != s.cx.frozenOffset {
-					// a nested freeze after the outer matcher has read: MatchNot never does that
-					s.xfOK = false
-				}
-				s.cx.freeze()
-				depth++
-				s.step("KFreeze")
-			}
-		case r < 75: // unfreeze
-			if depth > 0 || rng.Intn(10) == 0 {
-				if depth == 0 {
-					s.xfOK = false // unfreeze without freeze rewinds to a stale offset: outside the discipline
-				}
+			s.cx.freeze()
+			depth++
+			s.step("KFreeze")
+		case r < 75: // unfreeze (only ever after a freeze)
+			if depth > 0 {
 				s.cx.unfreeze()
+				depth--
 				s.step("KUnfreeze")
-				if depth > 0 {
-					depth--
-				}
-				if depth > 0 {
-					// inner unfreeze of a nested pair: matching mode is off although the outer matcher
-					// is still running. MatchNot returns (or freezes again) at once; do the same most of
-					// the time, otherwise the sequence is outside the discipline.
-					switch rng.Intn(4) {
-					case 0:
-						s.xfOK = false
-					case 1:
-						s.cx.freeze()
-						depth++
-						s.step("KFreeze")
-					default:
-						s.cx.unfreeze()
-						depth--
-						s.step("KUnfreeze")
-					}
-				}
 			}
 		case r < 82: // MatchingBytes
 			var d []byte
@@ -581,8 +588,9 @@ func vC01Run(out *vOut, rng *vRng, idx int, style int) {
 		}
 	}
 	// leave matching mode the way the router does, then drain
-	for s.cx.matching {
+	for depth > 0 {
 		s.cx.unfreeze()
+		depth--
 		s.step("KUnfreeze")
 	}
 	var got []byte
@@ -627,6 +635,10 @@ func vC01Run(out *vOut, rng *vRng, idx int, style int) {
 			out.Fail(key, fmt.Sprintf("draining the connection delivered %d bytes, the unconsumed suffix of the stream has %d", len(got), len(want)),
 				map[string]any{"seq": idx, "stream_seed": seed, "stream_len": L, "consumed": s.consumed, "wraps": s.nWrap, "steps": strings.Join(s.steps, "; ")})
 		}
+	}
+	if s.badOffset {
+		out.Fail("C01:conn:offset-out-of-range", "cx.offset > len(cx.buf) after an operation sequence that only uses the call patterns of the real code",
+			map[string]any{"seq": idx, "steps": strings.Join(s.steps, "; ")})
 	}
 	if int64(s.maxBuf) > int64(MaxMatchingBytes-1+prefetchChunkSize) && pre == 0 {
 		out.Fail("C01:conn:buffer-bound", fmt.Sprintf("len(buf) reached %d > MaxMatchingBytes-1+prefetchChunkSize", s.maxBuf), map[string]any{"seq": idx})
